@@ -20,7 +20,7 @@ carries the rest of the claim by **observation on the real code** (the property'
                        members changed => member i bit-identical; `VmapWrapper(batch_size)` key split
  leg E  model tie      batched Lean wrapper model == single-member Lean model == implementation
                        (through `Driver/C15.lean`)
- leg B  bundled env    inverted_pendulum (spring; thorough also positional), batch 4, 20 steps,
+ leg B  bundled env    inverted_pendulum (spring; thorough also positional), batch 4, 24 steps,
                        vs solo wrapped env, 1e-9 relative, across episode boundaries
  leg D  domain rand.   `DomainRandomizationVmapWrapper` with per-member masses, frictions, gears on a
                        generator model with contacts vs a solo environment built from member i's system
@@ -627,10 +627,10 @@ def leg_wrappers(ctx, acc, rng):
 # ----------------------------------------------------------------------------- leg B: bundled environment
 
 
-def bundled_case(seed, backend, name='inverted_pendulum', B=4, T=20):
+def bundled_case(seed, backend, name='inverted_pendulum', B=4, T=24):
   rng = np.random.default_rng(seed)
-  return dict(leg='bundled', env=name, backend=backend, B=B, T=T, L=int(rng.integers(5, 9)), r=int(rng.integers(1, 3)),
-              key=int(rng.integers(1 << 30)), seed=seed)
+  return dict(leg='bundled', env=name, backend=backend, B=B, T=T, L=int(rng.integers(9, 14)), r=int(rng.integers(1, 3)),
+              prng=int(rng.integers(1 << 30)), seed=seed)
 
 
 def check_bundled(c):
@@ -644,8 +644,10 @@ def check_bundled(c):
       senv = T.AutoResetWrapper(T.EpisodeWrapper(envs.get_environment(c['env'], backend=c['backend']), c['L'], c['r']))
       _M[ck] = (jax.jit(benv.reset), jax.jit(benv.step), jax.jit(senv.reset), jax.jit(senv.step), benv.action_size)
     br, bs, sr, ss, na = _M[ck]
-    keys = jax.random.split(jax.random.PRNGKey(c['key']), c['B'])
+    keys = jax.random.split(jax.random.PRNGKey(c['prng']), c['B'])
     acts = rng.uniform(-3, 3, size=(c['T'], c['B'], na))
+    for b in range(0, c['B'], 2):   # even members push one way: they terminate early, at their own times
+      acts[:, b, :] = rng.choice([-1.0, 1.0]) * rng.uniform(1.5, 3.0)
     st = br(keys)
     sts = [sr(keys[i]) for i in range(c['B'])]
     stats = dict(dones=0, truncations=0, worst=0.0)
@@ -689,7 +691,7 @@ def leg_bundled(ctx, acc, rng):
 def dr_case(seed, backend, B=None):
   rng = np.random.default_rng(seed)
   return dict(leg='dr', backend=backend, seed=seed, B=int(B or rng.integers(2, 6)), T=int(rng.integers(8, 16)),
-              L=int(rng.integers(4, 8)), key=int(rng.integers(1 << 30)))
+              L=int(rng.integers(4, 8)), prng=int(rng.integers(1 << 30)))
 
 
 def check_dr(c):
@@ -721,7 +723,7 @@ def check_dr(c):
     sr = jax.jit(lambda vals, key: solo_env(vals).reset(key))
     ss = jax.jit(lambda vals, st, a: solo_env(vals).step(st, a))
     br, bs = jax.jit(benv.reset), jax.jit(benv.step)
-    keys = jax.random.split(jax.random.PRNGKey(c['key']), B)
+    keys = jax.random.split(jax.random.PRNGKey(c['prng']), B)
     acts = rng.uniform(-1, 1, size=(c['T'], B, na))
     vals = [[repl[k][i] for k in names] for i in range(B)]
     st = br(keys)
@@ -1098,16 +1100,17 @@ def replay(ctx, rp):
               ortho=lambda a: m['math'].orthogonals(a),
               frame1=lambda a: m['kinematics'].link_to_joint_frame(m['Motion'](ang=a[None], vel=jp.zeros((1, 3))))[0].ang)[rp['fn']]
     real = jax.jit(jax.vmap(fn, axis_name='batch'))(jp.asarray(X))
+    flat1 = lambda t: np.concatenate([np.asarray(v, dtype=np.float64).ravel() for v in jax.tree.leaves(t)])
     for i in range(len(X)):
-      d = first_diff(member(real, i), fn(jp.asarray(X[i])), False)
-      if is_fail(d):
-        return False, f'vmap({rp["fn"]})(batch)[{i}] differs from {rp["fn"]}(batch[{i}]): {d}'
+      got, ref = flat1(member(real, i)), flat1(fn(jp.asarray(X[i])))
+      if not close(got, ref):
+        return False, f'vmap({rp["fn"]})(batch)[{i}] = {got.tolist()} differs from {rp["fn"]}(batch[{i}]) = {ref.tolist()}'
     return True, 'vmapped reduction agrees with the solo calls'
   if leg == 'bundled':
-    f, _ = check_bundled({k: rp[k] for k in ('leg', 'env', 'backend', 'B', 'T', 'L', 'r', 'key', 'seed')})
+    f, _ = check_bundled({k: rp[k] for k in ('leg', 'env', 'backend', 'B', 'T', 'L', 'r', 'prng', 'seed')})
     return (False, f['what']) if f else (True, 'bundled environment: batch equals solo')
   if leg == 'dr':
-    f, _ = check_dr({k: rp[k] for k in ('leg', 'backend', 'seed', 'B', 'T', 'L', 'key')})
+    f, _ = check_dr({k: rp[k] for k in ('leg', 'backend', 'seed', 'B', 'T', 'L', 'prng')})
     return (False, f['what']) if f else (True, 'domain randomisation: batch equals solo systems')
   if leg == 'rank':
     T = m['training']
